@@ -148,8 +148,12 @@ def array_compare(eng, op, a, b):
     k = _join_kind(arrv.kind, ks)
     sz = to_z3(sc, k)
     if left:
-        return SArr(lam(lambda i: f(to_z3(arrv.get(i), k), sz), "bool"), arrv.n, "bool")
-    return SArr(lam(lambda i: f(sz, to_z3(arrv.get(i), k)), "bool"), arrv.n, "bool")
+        out = SArr(lam(lambda i: f(to_z3(arrv.get(i), k), sz), "bool"), arrv.n, "bool")
+    else:
+        out = SArr(lam(lambda i: f(sz, to_z3(arrv.get(i), k)), "bool"), arrv.n, "bool")
+    if isinstance(op, ast.Eq) and getattr(arrv, "diff_of", None) is not None and not isinstance(sc, Sym) and k in ("int", "real"):
+        out.steps_of = (arrv.diff_of, sc)  # `np.diff(a) == c`: remembered for np.all (see _np_all_any)
+    return out
 
 
 def inplace_binop(eng, op, cur, val):
@@ -472,6 +476,8 @@ def symbolic_comprehension(eng, n, fr, kind, first):
         hook = getattr(eng, "comprehension_hook", None)
         if hook is not None:
             return hook(eng, n, fr, kind, first)
+        if len(gens) == 1 and kind in ("list", "gen"):
+            return filtered_comprehension(eng, n, fr, kind, first)
         raise Unsupported("filtered / nested comprehension over a symbolic sequence")
     length, getter = as_sequence(eng, first)
     bulk = _bulk_dict_pop(eng, n, fr, kind, length, getter)
@@ -542,6 +548,103 @@ def symbolic_comprehension(eng, n, fr, kind, first):
     if kind == "list":
         return p
     raise Unsupported("set comprehension over a symbolic sequence")
+
+
+FILTER_MODEL = ("comprehension-model: [e(x) for x in S if c(x)] over a sequence of unknown length keeps exactly the elements whose condition holds, in "
+                "order (ghost symbols: the number N of kept elements, the position K(m) of the m-th kept one, the rank R(i) of a kept position; if "
+                "every condition holds nothing is dropped); condition and element are evaluated once for an arbitrary position and must be pure")
+
+
+def filtered_comprehension(eng, n, fr, kind, first):
+    """[elt for x in S if c1 if c2 ...] (one generator) over a symbolic-length S.  Condition and element are evaluated once, for an
+    arbitrary position i (pure: no fork, no side effect); the result is a fresh list described by an order-preserving selection."""
+    from .models import as_sequence
+    from .values import Opaque as _Op
+
+    g = n.generators[0]
+    length, getter = as_sequence(eng, first)
+    nz = length.z if isinstance(length, Sym) else zint(length)
+    i = z3.Int(fresh_name("fi"))
+    in_range = z3.And(i >= 0, i < nz)
+    sub = Frame(parent=fr, globs=fr.globs, func=fr.func)
+    saved = list(eng.pc)
+    eng.pc.append(in_range)
+    guards = 1  # number of guard hypotheses pushed on the path condition (range, then every condition that is not decided)
+    cond, vv = True, None
+    eng.pure_mode = getattr(eng, "pure_mode", 0) + 1
+    try:
+        eng.assign(g.target, getter(Sym(i, "int")), sub)
+        facts = []  # (hypotheses added while evaluating, number of guards in force)
+        for c in g.ifs:  # `if a if b`: b is evaluated only where a holds
+            k0 = len(eng.pc)
+            t = eng.truth(eng.ev(c, sub))
+            facts.append((eng.pc[k0:], cond))
+            del eng.pc[k0:]
+            cond = eng.and_(cond, t)
+            if cond is False:
+                break
+            if isinstance(t, Sym):
+                eng.pc.append(t.z)
+        if cond is not False:
+            k0 = len(eng.pc)
+            vv = eng.ev(n.elt, sub)
+            facts.append((eng.pc[k0:], cond))
+    finally:
+        eng.pure_mode -= 1
+        eng.pc = saved
+    for hs, gd in facts:  # facts established while evaluating (proved bounds ...) hold at every position where that part is evaluated
+        gz = in_range if gd is True else z3.And(in_range, to_z3(gd, "bool"))
+        for h in hs:
+            eng.pc.append(z3.ForAll([i], z3.Implies(gz, h)))
+    if isinstance(first, Iter):
+        first.consumed = True
+    if cond is False:
+        return Iter(PList([])) if kind == "gen" else PList([])
+    vals = vv if isinstance(vv, tuple) else (vv,)
+    kinds, terms, proto = [], [], None
+    for x in vals:
+        if x is None:
+            kinds.append("oref"), terms.append(z3.IntVal(0))
+        elif isinstance(x, _Op):
+            kinds.append("ref"), terms.append(x.z)
+            proto = x.proto if not isinstance(vv, tuple) else None
+        elif kind_of(x) is not None:
+            kinds.append(kind_of(x)), terms.append(to_z3(x, kind_of(x)))
+        else:
+            raise Unsupported(f"filtered comprehension element of type {type(x).__name__} over a symbolic sequence")
+    p = PList()
+    p.items, p.kinds, p.tup, p.proto = None, kinds, isinstance(vv, tuple), proto
+    if cond is True:  # nothing is filtered: the pointwise image
+        p.n = z3.simplify(nz)
+        p.cols = [z3.Lambda([i], t) for t in terms]
+        return Iter(p) if kind == "gen" else p
+    eng.assumptions.add(FILTER_MODEL)
+    tag = fresh_name("flt")
+    N = z3.Int(tag + "_N")
+    K = z3.Function(tag + "_K", z3.IntSort(), z3.IntSort())
+    R = z3.Function(tag + "_R", z3.IntSort(), z3.IntSort())
+    m, m2 = z3.Int(tag + "_m"), z3.Int(tag + "_m2")
+    holds = lambda t: z3.substitute(cond.z, (i, t))
+    for ax in filter_axioms(nz, holds, N, K, R, i, m, m2):
+        eng.assume(ax)
+    p.n = N
+    p.cols = [z3.Lambda([m], z3.substitute(t, (i, K(m)))) for t in terms]
+    eng.ghost.setdefault("filters", []).append(dict(N=N, K=K, R=R, n=nz, cond=holds, out=p))
+    return Iter(p) if kind == "gen" else p
+
+
+def filter_axioms(nz, holds, N, K, R, i, m, m2):
+    """the order-preserving selection of the positions 0 <= i < nz at which holds(i): N of them, K(m) the m-th, R(i) the rank of a kept one
+    (every formula is a property of CPython's filtering: tools/xcheck_strmodel.py evaluates them on concrete lists)"""
+    in_range = z3.And(i >= 0, i < nz)
+    return [
+        z3.And(N >= 0, N <= nz),
+        z3.ForAll([m], z3.Implies(z3.And(m >= 0, m < N), z3.And(K(m) >= m, K(m) < nz, holds(K(m)), R(K(m)) == m)), patterns=[K(m)]),
+        z3.ForAll([m, m2], z3.Implies(z3.And(m >= 0, m < m2, m2 < N), K(m) < K(m2)), patterns=[z3.MultiPattern(K(m), K(m2))]),
+        z3.ForAll([i], z3.Implies(z3.And(in_range, holds(i)), z3.And(R(i) >= 0, R(i) < N, R(i) <= i, K(R(i)) == i)), patterns=[R(i)]),
+        z3.Implies(z3.ForAll([i], z3.Implies(in_range, holds(i))),
+                   z3.And(N == nz, z3.ForAll([m], z3.Implies(z3.And(m >= 0, m < N), K(m) == m), patterns=[K(m)]))),
+    ]
 
 
 def _bulk_dict_pop(eng, n, fr, kind, length, getter):
@@ -772,7 +875,70 @@ def _np_cumsum(eng, args, kwargs):
     return out
 
 
+def _np_diff(eng, args, kwargs):
+    """np.diff(a) of a 1-D array (n = 1, last axis): out[i] = a[i+1] - a[i], max(len(a) - 1, 0) entries, a fresh array."""
+    a = args[0]
+    if kwargs.get("n", args[1] if len(args) > 1 else 1) != 1 or set(kwargs) - {"n", "axis"}:
+        raise Unsupported("np.diff with n != 1 / prepend / append")
+    if isinstance(a, PList) and a.items is None and not a.tup:
+        a = SArr(a.cols[0], a.n, a.kinds[0])
+    if isinstance(a, SArr) and not hasattr(a, "__pyvc_getitem__"):
+        if kwargs.get("axis", args[2] if len(args) > 2 else -1) not in (-1, 0):
+            raise ProgExc(ValueError, "axis out of bounds for a 1-D array")
+        if a.kind not in ("int", "real"):
+            raise Unsupported("np.diff of a boolean array")
+        used(eng, "np.diff-1d: out[i] = a[i+1] - a[i], max(len - 1, 0) entries, fresh")
+        n = a.nz()
+        out = SArr(lam(lambda i: a.get(i + 1).z - a.get(i).z, a.kind), z3.simplify(z3.If(n >= 1, n - 1, z3.IntVal(0))), a.kind, name="diff", dtype=a.dtype)
+        out.diff_of = a
+        return out
+    if isinstance(a, NArr) and a.ndim == 1 and a.kind in ("int", "real"):
+        used(eng, "np.diff-1d: out[i] = a[i+1] - a[i], max(len - 1, 0) entries, fresh")
+        it = a.items
+        return NArr((max(len(it) - 1, 0),), [eng.binop(ast.Sub(), it[j + 1], it[j]) for j in range(len(it) - 1)], a.kind, a.dtype)
+    raise Unsupported("np.diff of this operand")
+
+
+def _np_all_any(is_all):
+    def model(eng, args, kwargs):
+        """np.all(a) / np.any(a) without axis: the conjunction / disjunction of the truth values of all entries (True / False when empty)."""
+        a = args[0]
+        if len(args) != 1 or kwargs:
+            raise Unsupported("np.all / np.any with an axis")
+        if isinstance(a, SArr):
+            used(eng, "np.all/np.any: every / some entry is true")
+            j = z3.Int(fresh_name("j"))
+            t = (lambda x: x.z) if a.kind == "bool" else (lambda x: x.z != 0)
+            if is_all:
+                r = eng.sbool(z3.ForAll([j], z3.Implies(z3.And(j >= 0, j < a.nz()), t(a.get(j)))))
+                if getattr(a, "steps_of", None) is not None and isinstance(r, Sym):
+                    # np.all(np.diff(src) == c) for a concrete c: src is the arithmetic progression src[0] + j*c.  The implication needs
+                    # induction over the positions (z3 does none): stated as a named lemma
+                    src, c = a.steps_of
+                    eng.assumptions.add("assumed-lemma:arithmetic-progression: all(np.diff(a) == c) for a constant c implies a[j] = a[0] + j*c for every position j")
+                    jz = to_z3(Sym(j, "int"), src.kind)
+                    eng.assume(z3.Implies(r.z, z3.ForAll([j], z3.Implies(z3.And(j >= 0, j < src.nz()), src.get(j).z == src.get(0).z + jz * to_z3(c, src.kind)))))
+                return r
+            return eng.sbool(z3.Exists([j], z3.And(j >= 0, j < a.nz(), t(a.get(j)))))
+        if isinstance(a, PList) and a.items is not None:
+            items = a.items
+        elif isinstance(a, NArr):
+            items = a.items
+        elif kind_of(a) is not None:
+            items = [a]
+        else:
+            raise Unsupported("np.all / np.any of this operand")
+        used(eng, "np.all/np.any: every / some entry is true")
+        acc = is_all
+        for x in items:
+            acc = eng.and_(acc, eng.truth(x)) if is_all else eng.or_(acc, eng.truth(x))
+        return acc
+
+    return model
+
+
 NP_MODELS = {
+    np.diff: _np_diff, np.all: _np_all_any(True), np.any: _np_all_any(False),
     np.cumsum: _np_cumsum,
     np.arange: _np_arange, np.where: _np_where, np.count_nonzero: _np_count_nonzero, np.full_like: _np_full_like,
     np.ones_like: _np_ones_like, np.zeros_like: _np_zeros_like, np.array: _np_array, np.issubdtype: _np_issubdtype,
